@@ -453,7 +453,10 @@ func headerTail(h *types.Header) []byte {
 	return append([]byte{}, full[len(h.GetMessage()):]...)
 }
 
-var bigCounts = []uint64{^uint64(0), 1 << 63, 1<<63 - 1, 1 << 48, 1 << 40, 1 << 32, 1<<32 - 1, 1 << 31, 0x10000, 0xffff, 0xfd, 0xfc, 17, 16}
+// counts that make an unbounded make([]T, n) panic (recoverable) or are small enough to be allocated; the range in between
+// (2^21 .. 2^47) would make an unpatched preallocating decoder request terabytes and kill the process, so it is left to the
+// crash probe.
+var bigCounts = []uint64{^uint64(0), 1 << 63, 1<<63 - 1, 1 << 48, 1 << 20, 0x10000, 0xffff, 0xfd, 0xfc, 17, 16}
 
 func varuintBytes(v uint64, form int) []byte {
 	s := common.NewZeroCopySink(nil)
